@@ -295,12 +295,19 @@ func encCfg(hs []string) string {
 	return " cfgh=" + encBlankList(b)
 }
 
-func runProvider(dec config.DecoderType, file []byte, k int, preload bool, headers []string) string {
+// runProvider drains the real provider. unlimited: the provider runs with Limit = 0 (no limit) and exactly k requests are
+// taken before the run is cancelled (only for files on which no decoder error is expected).
+func runProvider(dec config.DecoderType, file []byte, k int, preload bool, headers []string, unlimited bool) string {
 	fs := afero.NewMemMapFs()
 	if err := afero.WriteFile(fs, "/ammo", file, 0o644); err != nil {
 		panic(err)
 	}
 	conf := config.Config{Decoder: dec, File: "/ammo", Limit: uint(k), Preload: preload, Headers: headers}
+	want := k + 4
+	if unlimited {
+		conf.Limit = 0
+		want = k
+	}
 	p, err := phttp.NewProvider(fs, conf)
 	if err != nil {
 		return "err=" + classifyErr(err) + " n=0 reqs="
@@ -318,7 +325,7 @@ func runProvider(dec config.DecoderType, file []byte, k int, preload bool, heade
 	}()
 	var reqs []string
 	buildErr := false
-	for len(reqs) < k+4 {
+	for len(reqs) < want {
 		a, ok := p.Acquire()
 		if !ok {
 			if a != nil {
@@ -475,15 +482,16 @@ func c07Run(input string) string {
 	}
 	pre := kv["pre"] == "1"
 	cfg := parseCfg(kv["cfgh"])
+	unl := kv["lim0"] == "1"
 	switch kv["fmt"] {
 	case "uri":
-		return runProvider(config.DecoderURI, unhx(kv["file"]), k, pre, cfg)
+		return runProvider(config.DecoderURI, unhx(kv["file"]), k, pre, cfg, unl)
 	case "uripost":
-		return runProvider(config.DecoderURIPost, unhx(kv["file"]), k, pre, cfg)
+		return runProvider(config.DecoderURIPost, unhx(kv["file"]), k, pre, cfg, unl)
 	case "raw":
-		return runProvider(config.DecoderRaw, unhx(kv["file"]), k, pre, cfg)
+		return runProvider(config.DecoderRaw, unhx(kv["file"]), k, pre, cfg, unl)
 	case "json":
-		return runProvider(config.DecoderJSONLine, renderJSON(kv), k, pre, cfg)
+		return runProvider(config.DecoderJSONLine, renderJSON(kv), k, pre, cfg, unl)
 	}
 	return "err=badinput n=0 reqs="
 }
@@ -501,6 +509,12 @@ func c07Class(input, obs string) string {
 	} else {
 		c += "/wellformed"
 	}
+	if kv["lim0"] == "1" {
+		c += "/nolimit"
+	}
+	if hasLongLine(kv["file"]) {
+		c += "/longline"
+	}
 	if kv["pre"] == "1" {
 		c += "/preload"
 	}
@@ -511,6 +525,25 @@ func c07Class(input, obs string) string {
 		c += "/err"
 	}
 	return c
+}
+
+// hasLongLine: the (hex) file has a line of more than 4096 bytes (the default bufio buffer)
+func hasLongLine(fileHex string) bool {
+	if len(fileHex) <= 2*4096 {
+		return false
+	}
+	run := 0
+	for i := 0; i+1 < len(fileHex); i += 2 {
+		if fileHex[i] == '0' && fileHex[i+1] == 'a' {
+			run = 0
+			continue
+		}
+		run++
+		if run > 4096 {
+			return true
+		}
+	}
+	return false
 }
 
 // ---------------------------------------------------------------- generators
@@ -730,6 +763,14 @@ func candidateFrames(file []byte) [][]byte {
 	return out
 }
 
+// lim0: run the provider without a limit (Limit = 0) and take exactly k requests
+func lim0(on bool) string {
+	if on {
+		return " lim0=1"
+	}
+	return ""
+}
+
 func limitFor(nreq int) int {
 	k := (5*nreq + 1) / 2
 	if k < 3 {
@@ -816,7 +857,7 @@ func c07Gen(r *rand.Rand, tier string) []string {
 				for n := 1; n <= 6; n++ {
 					for rep := 0; rep < 10; rep++ {
 						items := randItems(r, f, n)
-						out = append(out, caseLine(f, items, randLayout(r, flagsOf(fl), len(items)), rep%5 == 4, randCfg(r)))
+						out = append(out, caseLine(f, items, randLayout(r, flagsOf(fl), len(items)), rep%5 == 4, randCfg(r))+lim0(rep%5 == 2))
 					}
 				}
 			}
@@ -825,14 +866,14 @@ func c07Gen(r *rand.Rand, tier string) []string {
 		for _, f := range formats {
 			for i := 0; i < 500; i++ {
 				items := randItems(r, f, 1+r.Intn(6))
-				out = append(out, caseLine(f, items, randLayout(r, flagsOf(r.Intn(32)), len(items)), r.Intn(6) == 0, randCfg(r)))
+				out = append(out, caseLine(f, items, randLayout(r, flagsOf(r.Intn(32)), len(items)), r.Intn(6) == 0, randCfg(r))+lim0(r.Intn(5) == 0))
 			}
 		}
 	}
 	// 2 the last entry without a final newline, every shape of last item
 	nlast := 150
 	if thorough {
-		nlast = 2000
+		nlast = 6000
 	}
 	for i := 0; i < nlast; i++ {
 		f := formats[r.Intn(2)]
@@ -847,7 +888,7 @@ func c07Gen(r *rand.Rand, tier string) []string {
 			}
 		}
 		fl := flagsOf(r.Intn(16))
-		out = append(out, caseLine(f, items, randLayout(r, fl, len(items)), false, nil))
+		out = append(out, caseLine(f, items, randLayout(r, fl, len(items)), i%7 == 3, nil)+lim0(i%5 == 1))
 	}
 	// 3 no entries at all (headers / blanks only)
 	for _, f := range formats {
@@ -870,7 +911,7 @@ func c07Gen(r *rand.Rand, tier string) []string {
 	}
 	nmut := 800
 	if thorough {
-		nmut = 12000
+		nmut = 40000
 	}
 	for i := 0; i < nmut; i++ {
 		f := formats[r.Intn(3)]
@@ -928,10 +969,33 @@ func c07Gen(r *rand.Rand, tier string) []string {
 		fitems := []item{{kind: 'f', b: []byte("big tag"), c: frame}, {kind: 'f', c: []byte("GET / HTTP/1.0\r\n\r\n")}}
 		out = append(out, caseLine("raw", fitems, layout{fnl: true}, i%2 == 0, nil))
 	}
+	// 7 long lines: request lines, header lines, size lines and blank/padded lines longer than the buffers the readers
+	// use (bufio.Reader 4096, bufio.Scanner 64 KiB token limit, multiples of both): a line is ONE line whatever its length
+	// (uripost/raw: ReadString has no limit; uri: lines of 65536 bytes and more are the Scanner's `token too long`)
+	out = append(out, longStream(r, thorough)...)
+	// 9 many entries: files much larger than the readers' buffers (entries and header lines straddle every buffer refill);
+	// one pass and a bit, half of them preloaded (everything is decoded before the first request is built)
+	nbig, maxEntries := 2, 400
+	if thorough {
+		nbig, maxEntries = 25, 3000
+	}
+	for _, f := range formats {
+		for i := 0; i < nbig; i++ {
+			n := 120 + r.Intn(maxEntries-120)
+			items := randItems(r, f, n)
+			lay := randLayout(r, flagsOf(r.Intn(32)), len(items))
+			line := caseLine(f, items, lay, i%2 == 0, randCfgSmall(r))
+			// k = one pass + a few: the observation repeats every request text once, not 2.5 times
+			line = strings.Replace(line, fmt.Sprintf(" k=%d ", limitFor(countReqs(items))), fmt.Sprintf(" k=%d ", countReqs(items)+3), 1)
+			out = append(out, line)
+		}
+	}
+	// 8 exhaustive: EVERY short byte string over the bytes the line formats give a meaning to (differential, model = code)
+	out = append(out, enumStream(thorough)...)
 	// 5 http/json: entity lists in three layouts
 	nj := 400
 	if thorough {
-		nj = 6000
+		nj = 15000
 	}
 	for i := 0; i < nj; i++ {
 		n := 1 + r.Intn(6)
@@ -970,6 +1034,307 @@ func c07Gen(r *rand.Rand, tier string) []string {
 		mode := []string{"line", "pretty", "array"}[r.Intn(3)]
 		out = append(out, fmt.Sprintf("fmt=json k=%d pre=%d mode=%s sep=%d omit=%d ord=%d fnl=%d ents=%s",
 			limitFor(n), map[bool]int{true: 1, false: 0}[r.Intn(6) == 0], mode, r.Intn(len(jsonSeps)), r.Intn(2), r.Intn(3), r.Intn(2), encEnts(es))+encCfg(randCfg(r)))
+	}
+	return out
+}
+
+// ---------------------------------------------------------------- long lines
+
+const alnum = "abcdefghijklmnopqrstuvwxyz0123456789ABCDEFGHIJKLMNOPQRSTUVWXYZ"
+
+// fill: n bytes drawn from alpha (position-dependent content: a truncated, shifted or re-split copy differs)
+func fill(r *rand.Rand, n int, alpha string) []byte {
+	if n < 0 {
+		n = 0
+	}
+	b := make([]byte, n)
+	for i := range b {
+		b[i] = alpha[r.Intn(len(alpha))]
+	}
+	return b
+}
+
+// lineLen: length of the line of entry idx in the rendered file (without its newline)
+func lineLen(format string, items []item, lay layout, idx int) int {
+	l := lay.per[idx]
+	return len(l.pre) + len(content(format, items[idx], l)) + len(l.post)
+}
+
+var longKinds = map[string][]string{
+	"uri":     {"uri", "tag", "hval", "hkey", "pad", "blank"},
+	"uripost": {"uri", "tag", "hval", "hkey", "pad", "blank"},
+	"raw":     {"tag", "pad", "blank", "frame"},
+}
+
+// longCase: a short entry list in which ONE line has exactly `target` bytes (kind says which part of it is long);
+// pos 0/1/2 = that line is the first / a middle / the last line of the file
+func longCase(r *rand.Rand, format, kind string, target, pos int) string {
+	before := randItems(r, format, 1+r.Intn(2))
+	after := randItems(r, format, 1+r.Intn(2))
+	switch pos {
+	case 0:
+		before = nil
+	case 2:
+		after = nil
+	}
+	short := func() item {
+		switch format {
+		case "uri":
+			return item{kind: 'r', a: []byte("/after"), b: []byte("t a")}
+		case "uripost":
+			return item{kind: 'r', a: []byte("/after"), b: []byte("t a"), c: []byte("x\ny")}
+		}
+		return item{kind: 'f', b: []byte("t a"), c: []byte("GET /after HTTP/1.1\r\nHost: h\r\n\r\n")}
+	}
+	var long item
+	switch format {
+	case "uri":
+		long = item{kind: 'r', a: []byte("/l"), b: []byte("tg")}
+	case "uripost":
+		long = item{kind: 'r', a: []byte("/l"), b: []byte("tg"), c: randBody(r)}
+	case "raw":
+		long = item{kind: 'f', b: []byte("tg"), c: randFrame(r)}
+	}
+	var tail []item // what follows the long line so that it has something to apply to
+	mk := func(n int) {
+		switch kind {
+		case "uri":
+			long.a = append([]byte("/s?q="), fill(r, n, alnum+"&=")...)
+		case "tag":
+			long.b = append(fill(r, n, alnum+"   []:"), 'x')
+		case "hval":
+			long = item{kind: 'h', a: []byte("X-Long"), b: append(append([]byte("v"), fill(r, n, alnum+" ;,=:[]")...), 'x')}
+		case "hkey":
+			long = item{kind: 'h', a: append([]byte("X-"), fill(r, n, alnum+"--")...), b: []byte("v")}
+		case "frame":
+			body := fill(r, 10, alnum)
+			long.c = []byte("POST /f?q=" + string(fill(r, n/2, alnum)) + " HTTP/1.1\r\nHost: h\r\nX-L: " + string(fill(r, n-n/2, alnum+" ")) + "x\r\nContent-Length: 10\r\n\r\n" + string(body))
+		}
+	}
+	mk(0)
+	padWhere := r.Intn(3)
+	if kind == "pad" && padWhere == 2 && format != "raw" {
+		long = item{kind: 'h', a: []byte("X-Pad"), b: []byte("p v")} // the long padding sits inside `[key:   value]`
+	}
+	if long.kind == 'h' && pos != 2 {
+		tail = []item{short()}
+	}
+	var items []item
+	items = append(items, before...)
+	idx := len(items)
+	items = append(items, long)
+	items = append(items, tail...)
+	items = append(items, after...)
+	lay := randLayout(r, flagsOf(r.Intn(32)), len(items))
+	if pos == 2 && r.Intn(2) == 0 {
+		lay.fnl = false
+	}
+	padAlpha := "   \t"
+	switch kind {
+	case "pad":
+		l := &lay.per[idx]
+		over := lineLen(format, items, lay, idx)
+		n := target - over
+		switch {
+		case padWhere == 0:
+			l.pre = append(l.pre, fill(r, n, padAlpha)...)
+		case padWhere == 1 || items[idx].kind != 'h':
+			l.post = append(fill(r, n, padAlpha), l.post...)
+		default:
+			f := []*[]byte{&l.i1, &l.i2, &l.i3, &l.i4}[r.Intn(4)]
+			*f = append(*f, fill(r, n, padAlpha)...)
+		}
+	case "blank":
+		b := fill(r, target, padAlpha)
+		if pos == 0 {
+			lay.lead = append([][]byte{b}, lay.lead...)
+		} else {
+			at := idx
+			if pos == 1 && idx > 0 {
+				at = idx - 1
+			}
+			lay.per[at].blanks = append(lay.per[at].blanks, b)
+			if at == len(items)-1 {
+				lay.fnl = true
+			}
+		}
+	case "frame":
+		mk(target)
+		items[idx] = long
+	default:
+		over := lineLen(format, items, lay, idx)
+		mk(target - over)
+		items[idx] = long
+		if d := target - lineLen(format, items, lay, idx); d != 0 { // the size prefix of nothing here depends on the filler
+			mk(target - over + d)
+			items[idx] = long
+		}
+	}
+	return caseLine(format, items, lay, r.Intn(4) == 0, randCfgSmall(r))
+}
+
+// randCfgSmall: a `headers` option for one case in eight
+func randCfgSmall(r *rand.Rand) []string {
+	if r.Intn(2) == 0 {
+		return nil
+	}
+	return randCfg(r)
+}
+
+var longBoundary = []int{4094, 4095, 4096, 4097, 4098, 8191, 8192, 8193, 16384, 16385, 32768, 32769, 65534, 65535, 65536, 65537, 131072, 131073}
+var longBulk = []int{4200, 4500, 5000, 6000, 9000, 12289, 20000, 40000, 66000, 70001, 100000, 140000}
+
+func longStream(r *rand.Rand, thorough bool) []string {
+	var out []string
+	for _, f := range []string{"uri", "uripost", "raw"} {
+		for _, kind := range longKinds[f] {
+			var targets []int
+			if thorough {
+				targets = append(append(targets, longBoundary...), longBulk...)
+				for i := 0; i < 12; i++ {
+					targets = append(targets, 4097+r.Intn(70000))
+				}
+			} else {
+				// always one line between the two buffer sizes and one beyond the Scanner limit, plus two boundary values
+				targets = []int{4097 + r.Intn(3000), 65536 + r.Intn(8000), longBoundary[r.Intn(len(longBoundary))], longBoundary[r.Intn(len(longBoundary))]}
+				if kind == "frame" {
+					targets = targets[:2]
+				}
+			}
+			for i, t := range targets {
+				pos := r.Intn(3)
+				if thorough && i < len(longBoundary) {
+					pos = i % 3
+				}
+				out = append(out, longCase(r, f, kind, t, pos))
+			}
+		}
+	}
+	// http/json: one object per line / pretty / array with a very long uri, body, tag, header value
+	njl := 6
+	if thorough {
+		njl = 60
+	}
+	for i := 0; i < njl; i++ {
+		n := []int{4097 + r.Intn(3000), 65536 + r.Intn(8000), 70001, 4096, 65536, 140000}[i%6]
+		e := entity{host: "example.com", method: "POST", uri: "/j", tag: "t", body: "b"}
+		switch (i / 6) % 4 {
+		case 0:
+			e.uri = "/s?q=" + string(fill(r, n, alnum))
+		case 1:
+			e.body = string(fill(r, n, alnum+"  \n\"{}[]"))
+		case 2:
+			e.tag = string(fill(r, n, alnum+" "))
+		case 3:
+			e.hk, e.hv = []string{"X-Long"}, []string{string(fill(r, n, alnum+" ;,="))}
+		}
+		if !thorough {
+			switch i {
+			case 1:
+				e.body = string(fill(r, n, alnum+"  \n\"{}[]"))
+			case 2:
+				e.hk, e.hv = []string{"X-Long"}, []string{string(fill(r, n, alnum+" ;,="))}
+			case 3:
+				e.tag = string(fill(r, n, alnum+" "))
+			}
+		}
+		es := []entity{{host: "h.x", method: "GET", uri: "/a", tag: "first"}, e, {host: "h.x", method: "", uri: "/b?c=d", tag: "last", body: "z"}}
+		mode := []string{"line", "pretty", "array"}[r.Intn(3)]
+		out = append(out, fmt.Sprintf("fmt=json k=%d pre=%d mode=%s sep=%d omit=%d ord=%d fnl=%d ents=%s",
+			7, r.Intn(2), mode, r.Intn(len(jsonSeps)), r.Intn(2), r.Intn(3), r.Intn(2), encEnts(es)))
+	}
+	return out
+}
+
+// ---------------------------------------------------------------- exhaustive small files
+
+// allStrings: every string over alpha with length <= n, shortest first
+func allStrings(alpha string, n int) []string {
+	out := []string{""}
+	level := []string{""}
+	for l := 1; l <= n; l++ {
+		var next []string
+		for _, s := range level {
+			for i := 0; i < len(alpha); i++ {
+				next = append(next, s+alpha[i:i+1])
+			}
+		}
+		out = append(out, next...)
+		level = next
+	}
+	return out
+}
+
+const enumFrame = "GET / HTTP/1.0\n\n" // 16 bytes
+
+// allSeqs: every sequence of at most n elements of pool, joined with "\n", shortest first
+func allSeqs(pool []string, n int) []string {
+	out := []string{}
+	level := []string{""}
+	for l := 1; l <= n; l++ {
+		var next []string
+		for _, s := range level {
+			for _, e := range pool {
+				if l == 1 {
+					next = append(next, e)
+				} else {
+					next = append(next, s+"\n"+e)
+				}
+			}
+		}
+		out = append(out, next...)
+		level = next
+	}
+	return out
+}
+
+var enumLines = map[string][]string{
+	"uri":     {"", " ", "/a", "/a t", " /b  t u\r", "[a:b]", "[A: c ]", "[a]", "[:b]", "[", "[Host:h]", "/a\r"},
+	"uripost": {"", "0 /a", "1 /a t", "2 /b", "x", "[a:b]", "[", "3 /c t u ", "-1 /a", "ab", "1 /a\r"},
+	"raw":     {"", "16 t", "16", "GET / HTTP/1.0", "0", "x", " 17 t u", "-1", "15 t\r"},
+}
+
+// enumStream: (a) every byte string up to a length over the bytes that mean something to the line formats,
+// (b) every sequence of up to n lines from a pool of line shapes (entries, headers, blanks, broken ones; bodies and
+// frames arise from the following lines), with and without the final newline. Differential: model = code.
+func enumStream(thorough bool) []string {
+	nb, nl := 3, 2
+	if thorough {
+		nb, nl = 4, 4
+	}
+	var out []string
+	add := func(f, file string, i int) {
+		s := fmt.Sprintf("fmt=%s k=4 pre=%d file=%s", f, i%2, hx([]byte(file)))
+		if f == "raw" {
+			s += " tbl=" + frameTable(candidateFrames([]byte(file)), nil)
+		}
+		out = append(out, s)
+	}
+	for i, s := range allStrings("/a \n\r[]:\t", nb) {
+		add("uri", s, i)
+	}
+	for _, pfx := range []string{"", "1 /a t\n", "[a:b]\n"} {
+		for i, s := range allStrings("013 \n/a[:]", nb-1) {
+			add("uripost", pfx+s, i)
+		}
+	}
+	for _, pfx := range []string{"", "16 t\n" + enumFrame} {
+		for i, s := range allStrings("016 \nt-\r", nb-1) {
+			add("raw", pfx+s, i)
+			if pfx != "" {
+				add("raw", s+pfx, i+1)
+			}
+		}
+	}
+	for _, f := range []string{"uri", "uripost", "raw"} {
+		n := nl
+		if thorough {
+			n = nl + 1
+		}
+		for i, s := range allSeqs(enumLines[f], n) {
+			add(f, s, i)
+			add(f, s+"\n", i/2)
+		}
 	}
 	return out
 }
